@@ -180,7 +180,7 @@ func c14Judge(c spec.Case, evs []spec.Event, d *Death) CaseResult {
 		viol("refused-start-accepted-on-retry", fmt.Sprintf("Start was refused (%s) but the same client then reports Start err=%q Protocol()=%q", trunc(o.StartErr, 80), o.RetryErr, o.RetryProtocol))
 	}
 	worked := o.StartErr == "" && o.ClientErr == "" && (o.PingErr == "" || (o.CallErr == "" && o.Tag != ""))
-	fully := o.StartErr == "" && o.ClientErr == "" && o.PingErr == "" && o.CallErr == "" && o.H2PErr == "" && o.P2HErr == "" && o.BigErr == ""
+	fully := o.StartErr == "" && o.ClientErr == "" && o.PingErr == "" && o.CallErr == "" && o.H2PErr == "" && o.P2HErr == "" && o.BigErr == "" && o.BigBrokeredErr == ""
 	switch class {
 	case "MUST_FAIL_AT_START":
 		if o.StartErr == "" {
@@ -205,7 +205,7 @@ func c14Judge(c spec.Case, evs []spec.Event, d *Death) CaseResult {
 		}
 	case "MUST_WORK":
 		if !fully {
-			viol("compatible-but-broken", fmt.Sprintf("a compatible configuration does not work end to end: start=%q client=%q ping=%q call=%q h2p=%q p2h=%q big=%q", o.StartErr, o.ClientErr, o.PingErr, o.CallErr, o.H2PErr, o.P2HErr, o.BigErr))
+			viol("compatible-but-broken", fmt.Sprintf("a compatible configuration does not work end to end: start=%q client=%q ping=%q call=%q h2p=%q p2h=%q big=%q bigBrokered=%q", o.StartErr, o.ClientErr, o.PingErr, o.CallErr, o.H2PErr, o.P2HErr, o.BigErr, o.BigBrokeredErr))
 			break
 		}
 		if o.Protocol != p.Proto {
